@@ -1,8 +1,12 @@
 package main
 
 import (
+	"bytes"
 	"fmt"
 	"time"
+
+	"gitlab.com/aquachain/aquachain/core/types"
+	"gitlab.com/aquachain/aquachain/rlp"
 
 	"gitlab.com/aquachain/aquachain/common"
 	"gitlab.com/aquachain/aquachain/core"
@@ -13,12 +17,13 @@ import (
 
 // history is one way a block tree reaches a node.
 type history struct {
-	Label    string
-	Archive  bool
-	NodeLim  int
-	TimeLim  time.Duration
-	Batches  [][]int
-	Restart  map[int]bool // restart (close + reopen on the same database) after batch i
+	Label   string
+	Archive bool
+	NodeLim int
+	TimeLim time.Duration
+	Batches [][]int
+	Restart map[int]bool // restart (close + reopen on the same database) after batch i
+	FromRLP bool         // deliver blocks decoded from their RLP bytes (cold objects) instead of the shared in-memory objects
 }
 
 func (h history) cache() *core.CacheConfig {
@@ -36,7 +41,7 @@ func (h history) replay() interface{} {
 		}
 	}
 	return map[string]interface{}{"label": h.Label, "archive": h.Archive, "trieNodeLimit": h.NodeLim, "trieTimeLimit": h.TimeLim.String(),
-		"batches": h.Batches, "restartAfter": rs}
+		"batches": h.Batches, "restartAfter": rs, "fromRLP": h.FromRLP}
 }
 
 // dfsOrder: branch by branch (children visited in random order).
@@ -132,6 +137,10 @@ func genHistory(t *chainx.Tree, r *hx.Rng, k int) history {
 		}
 		h.Batches, h.Label = out, h.Label+"/resend"
 	}
+	if r.Intn(4) == 0 {
+		h.FromRLP = true
+		h.Label += "/rlp"
+	}
 	h.Archive = r.Bool()
 	if h.Archive {
 		h.Label += "/archive"
@@ -159,17 +168,61 @@ func genHistory(t *chainx.Tree, r *hx.Rng, k int) history {
 }
 
 type treeCtx struct {
-	t       *chainx.Tree
-	name    string
-	builder map[int]blockResult
-	dumps   map[int]string
+	t          *chainx.Tree
+	name       string
+	builder    map[int]blockResult
+	dumps      map[int]string
+	bytes      map[int][]byte // RLP of every block as the builder handed it out
+	txReported bool
+}
+
+// blocksFor returns the blocks of a batch: the tree's shared objects, or fresh objects decoded from the recorded bytes.
+func (c *treeCtx) blocksFor(h history, batch []int) types.Blocks {
+	if !h.FromRLP {
+		return c.t.Blocks(batch)
+	}
+	out := make(types.Blocks, len(batch))
+	for i, id := range batch {
+		b := new(types.Block)
+		if err := rlp.DecodeBytes(c.bytes[id], b); err != nil {
+			panic(err)
+		}
+		b.SetVersionConfig(c.t.Cfg)
+		out[i] = b
+	}
+	return out
+}
+
+// inputIntact: importing must not change the blocks it is handed (they are shared with peers, caches and other nodes).
+func (c *treeCtx) inputIntact(run *hx.Run, input interface{}) {
+	for _, n := range c.t.Nodes[1:] {
+		enc, _ := rlp.EncodeToBytes(n.Block)
+		if !bytes.Equal(enc, c.bytes[n.ID]) {
+			run.Violate("import-mutated-input", "import-mutated-input", input,
+				fmt.Sprintf("node %d (height %d): the in-memory block no longer encodes to the bytes it had before the import (%d txs)", n.ID, n.Block.NumberU64(), len(n.Block.Transactions())))
+			c.bytes[n.ID] = enc // report once per mutation
+		} else if types.DeriveSha(n.Block.Transactions()) != n.Block.TxHash() {
+			run.Violate("import-mutated-input", "in-memory-body-mismatch", input, fmt.Sprintf("node %d: in-memory body does not match header.TxHash", n.ID))
+		}
+	}
+	if ch := c.t.ChangedTxs(); len(ch) > 0 && !c.txReported {
+		c.txReported = true
+		tx := c.t.Txs[ch[0]]
+		run.Violate("import-mutated-input", "execution-mutated-transaction", input,
+			fmt.Sprintf("%d transaction object(s) no longer encode to the bytes they were signed with after being executed (first: nonce %d to %x, value now %v)", len(ch), tx.Nonce(), tx.To(), tx.Value()))
+	}
+	run.Count("cmp:input-intact")
 }
 
 func newTreeCtx(t *chainx.Tree, name string) *treeCtx {
-	c := &treeCtx{t: t, name: name, builder: map[int]blockResult{}, dumps: map[int]string{}}
+	c := &treeCtx{t: t, name: name, builder: map[int]blockResult{}, dumps: map[int]string{}, bytes: map[int][]byte{}}
 	sdb := state.NewDatabase(t.GenDB())
 	for _, n := range t.Nodes {
 		c.builder[n.ID] = blockResult{Root: n.Block.Root(), Gas: n.Block.GasUsed(), Receipts: canonReceipts(n.Receipts)}
+		c.bytes[n.ID], _ = rlp.EncodeToBytes(n.Block)
+		if n.ID != 0 && types.DeriveSha(n.Block.Transactions()) != n.Block.TxHash() {
+			panic(fmt.Sprintf("builder handed out node %d whose body does not match its transaction root", n.ID))
+		}
 		st, err := state.New(n.Block.Root(), sdb)
 		if err != nil {
 			panic(err)
@@ -193,7 +246,7 @@ func (c *treeCtx) runHistory(run *hx.Run, h history, seedTag string) {
 	}
 	for bi, batch := range h.Batches {
 		run.Current(fmt.Sprintf("history %s %s batch %d", c.name, h.Label, bi))
-		n, err := bc.InsertChain(t.Blocks(batch))
+		n, err := bc.InsertChain(c.blocksFor(h, batch))
 		if err != nil {
 			viol("valid-block-refused", "valid-block-refused:"+errClass(err), fmt.Sprintf("batch %d %v: InsertChain = (%d, %v) for a chain of valid blocks", bi, batch, n, err))
 			run.Count("history-errors")
@@ -257,7 +310,25 @@ func (c *treeCtx) runHistory(run *hx.Run, h history, seedTag string) {
 			}
 		}
 	}
+	c.inputIntact(run, input)
+	// what a peer (or this node after a restart) reads from the database: every stored body must match its header
+	bc.Stop()
+	bc = t.OpenChain(db, h.cache())
+	for _, n := range t.Nodes[1:] {
+		if !delivered[n.ID] {
+			continue
+		}
+		if got := bc.GetBlockByHash(n.Block.Hash()); got != nil {
+			run.Count("cmp:stored-body")
+			if types.DeriveSha(got.Transactions()) != got.TxHash() || types.CalcUncleHash(got.Uncles()) != got.UncleHash() {
+				viol("stored-body-inconsistent", "stored-body-inconsistent", fmt.Sprintf("node %d (height %d): the body read back from the database after a restart does not match the header's transaction root / uncle hash", n.ID, n.Block.NumberU64()))
+			}
+		}
+	}
 	run.Count("histories")
+	if h.FromRLP {
+		run.Count("histories:from-rlp")
+	}
 	if h.Archive {
 		run.Count("histories:archive")
 	} else {
